@@ -1223,6 +1223,14 @@ def fixed_programs(rng, tabs):
                         [dict(m="get_policy", a=[], k={}), dict(m="has_policy", a=["bob", "data1", "read"], k={})]]))
     out.append(("rbac", [[dict(m="build_role_links", a=[], k={})], [dict(m="add_grouping_policy", a=["carol", "editor"], k={})],
                          [dict(m="has_role_for_user", a=["carol", "editor"], k={})]]))
+    # a WRITING call that raises (a grouping rule shorter than the role definition / a request of the wrong size
+    # inside a write section's neighbour) while other writers queue: the exception must reach the caller in every
+    # interleaving, exactly as on the plain enforcer
+    out.append(("rbac", [[dict(m="add_grouping_policy", a=["carol"], k={})],
+                         [dict(m="add_policy", a=["carol", "data1", "read"], k={})],
+                         [dict(m="remove_policy", a=["alice", "data1", "read"], k={})]]))
+    out.append(("rbac", [[dict(m="update_policy", a=[["nobody", "x", "y"], ["alice"]], k={}), dict(m="add_grouping_policy", a=["dave"], k={})],
+                         [dict(m="add_policy", a=["dave", "data2", "write"], k={}), dict(m="enforce", a=["dave", "data2"], k={})]]))
     return [(k, p) for k, p in out if all(usable(tabs, k, c["m"]) for th in p for c in th)]
 
 
@@ -1276,6 +1284,12 @@ PREEMPT_PAIRS = [
     ("dompat", [[C("get_implicit_permissions_for_user", "alice", "d1")], [C("enforce", "bob", "d2", "data1", "read")]]),
     ("rbac", [[C("enforce", "carol", "data1", "read")], [C("get_implicit_permissions_for_user", "carol")]]),
     ("rbac", [[C("get_all_subjects")], [C("get_field_index", "p", "obj")]]),
+    # two enforce calls with DIFFERENT requests and different answers (whatever evaluates the matcher must not be shared
+    # scratch state between the readers): preempted inside g() / the matcher evaluation
+    ("rbac", [[C("enforce", "alice", "data2", "read")], [C("enforce", "bob", "data1", "read")]]),
+    ("rbac", [[C("enforce", "alice", "data1", "read")], [C("enforce", "alice", "data9", "read")]]),
+    ("pat", [[C("enforce", "/book/77", "data1", "read")], [C("enforce", "/pen/1", "data2", "write")]]),
+    ("rbac", [[C("batch_enforce", [["alice", "data1", "read"], ["bob", "data2", "write"]])], [C("enforce_ex", "bob", "data1", "read")]]),
     # a reader and a writer: the writer must wait for the reader's section, whatever the preemption point
     ("pat", [[C("enforce", "/book/77", "data1", "read")], [C("add_grouping_policy", "/pen/:id", "book_group")]]),
     ("dompat", [[C("get_users_for_role_in_domain", "admin", "d1")], [C("delete_roles_for_user_in_domain", "alice", "admin", "*")]]),
